@@ -199,7 +199,25 @@ func ctrInv(s *seqCounters) bool {
 //@ guarded_by channel.mu: masterTimescale, masterSegDuration, masterTimeShift, masterSeqNrShift, maxNrBufSegs; owner: run, receivedSegData, isShifted, updateAndWriteMPD, deriveAndSetBitrates, deriveAndSetFrameRates, generateSegmentTimelineNrMPD
 //@ guarded_by Receiver.mu: streams
 
+//@ lock_inv channel.mu(ch): ch.trDatas != nil && (all k string :: haskey(ch.trDatas, k) ==> ch.trDatas[k] != nil)
 //@ lock_inv ChannelMgr.mu(cm): cm.channels != nil && (all k string :: haskey(cm.channels, k) ==> cm.channels[k] != nil)
+
+//@ extern func sort.Strings(x)
+//@   assigns x[*]
+
+// addTrData: the decision "this track becomes the master because no video track is registered yet"
+// is taken on the track table as it is when the lock is acquired for the update (atomic
+// check-and-register): with the table read in an earlier critical section, two concurrent first
+// uploads could both see "no video yet" and a non-video track could replace a video master.
+//@ func (*channel).addTrData
+//@   requires ch != nil && rd != nil
+//@   noframe
+//@   ensures  masterIfNoVideoYet: (all k string :: locked(haskey(ch.trDatas, k)) ==> locked(ch.trDatas[k] != nil && ch.trDatas[k].contentType != "video")) ==> ch.masterTrName == rd.name
+//@   ensures  masterKeptOnceVideo: (some k string :: locked(haskey(ch.trDatas, k) && ch.trDatas[k] != nil && ch.trDatas[k].contentType == "video")) ==> ch.masterTrName == locked(ch.masterTrName)
+//@   loop 1 invariant ch != nil && rd != nil && ch.trDatas == locked(ch.trDatas) && ch.masterTrName == locked(ch.masterTrName)
+//@   loop 1 invariant all k string :: haskey(ch.trDatas, k) == locked(haskey(ch.trDatas, k)) && ch.trDatas[k] == locked(ch.trDatas[k])
+//@   loop 1 invariant firstVideoTrack ==> (all k string :: visited(k) ==> ch.trDatas[k] == nil || ch.trDatas[k].contentType != "video")
+//@   loop 1 invariant !firstVideoTrack ==> (some k string :: haskey(ch.trDatas, k) && ch.trDatas[k] != nil && ch.trDatas[k].contentType == "video")
 
 //@ func newChannel
 //@   trusted
